@@ -2,11 +2,16 @@
    Statements only.  Theorems: the Tensor state machine (Program.reset resets every declared
    tensor between Einsums) - after ANY history of operations reset restores the initial state,
    so Einsum i starts from the state Einsum 1 started from; histories before a reset are
-   irrelevant.  NOT a theorem (hence _partial): that whole emitted cascades compute the chained
+   irrelevant.  Specification side (Proofs/EinsumCompose.v): the oracle `denote_all` every
+   emitted cascade is executed against IS sequential composition (any split into prefix and
+   rest), Einsum i is found under its declared name holding its own meaning on the prefix's
+   results, earlier results stay, and the prefix matters to Einsum i only through the tensors
+   i reads (any two histories agreeing on those give the same result).
+   NOT a theorem (hence _partial): that whole emitted cascades compute the chained
    Einsums, and text equality with stand-alone compilation; those are the executable ties of
    tools/props/c05.py. *)
 From Coq Require Import String List.
-Require Import TV.Model.TensorSM TV.Proofs.TensorSMProofs.
+Require Import TV.Model.TensorSM TV.Proofs.TensorSMProofs TV.Model.Einsum TV.Proofs.EinsumCompose.
 Import ListNotations.
 
 Theorem C05_reset_restores_partial : forall name ranks ops, treset (trun (tinit name ranks) ops) = tinit name ranks.
@@ -18,3 +23,26 @@ Proof. exact reset_forgets. Qed.
 
 Theorem C05_init_ranks_constant : forall name ranks ops, t_init (trun (tinit name ranks) ops) = ranks.
 Proof. exact init_ranks_constant. Qed.
+
+Theorem C05_oracle_composes : forall es1 es2 ts sc,
+  denote_all (es1 ++ es2) ts sc = denote_all es2 (denote_all es1 ts sc) sc.
+Proof. exact denote_all_app. Qed.
+
+Theorem C05_oracle_step_under_declared_name : forall es e ts sc,
+  tlookup (e_out e) (denote_all (es ++ [e]) ts sc) = denote e (denote_all es ts sc) sc.
+Proof. exact denote_all_last. Qed.
+
+Theorem C05_oracle_keeps_earlier_results : forall es e ts sc n,
+  n <> e_out e -> tlookup n (denote_all (es ++ [e]) ts sc) = tlookup n (denote_all es ts sc).
+Proof. exact denote_all_keeps. Qed.
+
+Theorem C05_einsum_depends_on_reads_only : forall e ts1 ts2 sc,
+  (forall n, einsum_reads n e = true -> tlookup n ts1 = tlookup n ts2) ->
+  denote e ts1 sc = denote e ts2 sc.
+Proof. exact denote_reads_only. Qed.
+
+Theorem C05_prefix_matters_through_reads_only : forall es es' e ts ts' sc,
+  (forall n, einsum_reads n e = true ->
+             tlookup n (denote_all es ts sc) = tlookup n (denote_all es' ts' sc)) ->
+  tlookup (e_out e) (denote_all (es ++ [e]) ts sc) = tlookup (e_out e) (denote_all (es' ++ [e]) ts' sc).
+Proof. exact cascade_step_depends_on_reads. Qed.
